@@ -194,7 +194,7 @@ def _gen_case(rng, tier):
             case['req_headers'] = hdrs
             if rng.random() < 0.12:
                 # a file several times as large as the block size static_file streams with, ranges across block edges
-                case['result']['name'] = 'big.bin'
+                case['result']['name'] = rng.choice(['big.bin', 'big.bin', 'link.bin'])
                 case['req_headers'] = {'Range': rng.choice(['bytes=0-1572863', 'bytes=5-1200000', 'bytes=1048570-1048590', 'bytes=-1500000',
                                                            'bytes=0-', 'bytes=1048576-', 'bytes=100-2097251', 'bytes=0-1048575'])} \
                     if rng.random() < 0.8 else {}
@@ -387,6 +387,15 @@ def _big_root():
                 f.truncate(BIG_SIZE)
             os.utime(tmp, (1000000000, 1000000000))
             os.replace(tmp, fn)
+        # a symbolic link inside the served directory (to a file inside it)
+        ln = os.path.join(d, 'link.bin')
+        if not os.path.islink(ln):
+            tmp = ln + '.%d' % os.getpid()
+            try:
+                os.symlink('big.bin', tmp)
+                os.replace(tmp, ln)
+            except OSError:
+                pass
         _BIG['dir'] = d
     return _BIG['dir']
 
@@ -398,7 +407,7 @@ def build(spec, ctx, label='r'):
     if k == 'static':
         import os
         root = os.path.join(os.path.dirname(os.path.dirname(os.path.abspath(__file__))), 'apps', 'static')
-        if spec['name'] == 'big.bin':
+        if spec['name'] in ('big.bin', 'link.bin'):
             root = _big_root()
         return ombott.static_file(spec['name'], root, download=spec.get('download', False))
     if k == 'redirect':
@@ -720,7 +729,7 @@ def serve_and_check(case, app, suffix):
                 want = {200}
                 import os
                 fn = os.path.join(os.path.dirname(os.path.dirname(os.path.abspath(__file__))), 'apps', 'static', rk['name'])
-                data = open(fn, 'rb').read() if rk['name'] != 'big.bin' else bytes(BIG_SIZE)
+                data = open(fn, 'rb').read() if rk['name'] not in ('big.bin', 'link.bin') else bytes(BIG_SIZE)
                 if case['method'] != 'HEAD' and not r.stopped_early and r.body != data and code == 200:
                     violation(res, 'C03:helper-result', f'static_file({rk["name"]!r}) delivered {len(r.body)} bytes, the file has {len(data)}')
             else:
